@@ -238,6 +238,7 @@ theorem ce3Loop_spec (c : Consts) (wl : Bool) (hM : MkqsOk str c wl) :
   | succ fuel ih =>
     intro ss l d level mem hlen hpre
     simp only [ce3Loop]
+    rw [scatterBuckets_eq 65536 _ ss (fun x _ => key16_lt _ _)]
     have hmem := buckets_mem 65536 (fun x => key16 (str x) d) ss
     apply step16_spec str wl d ss l _ _
       (buckets_perm 65536 _ ss (fun x _ => key16_lt _ _))
